@@ -182,8 +182,10 @@ func (s *Skiplist) NewLevel(randFn func() float32) int {
 		nextLevel = MaxLevel
 	}
 
+	verifYield(VerifPtLevelLoad)
 	level := int(atomic.LoadInt32(&s.level))
 	if nextLevel > level {
+		verifYield(VerifPtLevelCas)
 		if atomic.CompareAndSwapInt32(&s.level, int32(level), int32(level+1)) {
 			nextLevel = level + 1
 		} else {
@@ -217,19 +219,25 @@ func (s *Skiplist) findPath(itm unsafe.Pointer, cmp CompareFn,
 
 retry:
 	prev := s.head
+	verifYield(VerifPtFP0)
 	level := int(atomic.LoadInt32(&s.level))
 	for i := level; i >= 0; i-- {
+		verifYield(VerifPtFP1)
 		curr, _ := prev.getNext(i)
 	levelSearch:
 		for {
+			verifYield(VerifPtFP2)
 			next, deleted := curr.getNext(i)
 			for deleted {
+				verifYield(VerifPtFPH)
 				if !s.helpDelete(i, prev, curr, next, sts) {
 					sts.AddUint64(&sts.readConflicts, 1)
 					goto retry
 				}
 
+				verifYield(VerifPtFP1)
 				curr, _ = prev.getNext(i)
+				verifYield(VerifPtFP2)
 				next, deleted = curr.getNext(i)
 			}
 
@@ -308,6 +316,7 @@ retry:
 	}
 
 	// Now node is part of the skiplist
+	verifYield(VerifPtInsPub)
 	if !buf.preds[0].dcasNext(0, buf.succs[0], x, false, false) {
 		sts.AddUint64(&sts.insertConflicts, 1)
 		goto retry
@@ -317,6 +326,7 @@ retry:
 	for i := 1; i <= int(itemLevel); i++ {
 	fixThisLevel:
 		for {
+			verifYield(VerifPtInsOwn)
 			nodeNext, deleted := x.getNext(i)
 			next := buf.succs[i]
 
@@ -327,6 +337,7 @@ retry:
 				goto finished
 			}
 
+			verifYield(VerifPtInsLink)
 			if buf.preds[i].dcasNext(i, next, x, false, false) {
 				break fixThisLevel
 			}
@@ -347,12 +358,15 @@ func (s *Skiplist) softDelete(delNode *Node, sts *Stats) bool {
 
 	targetLevel := delNode.Level()
 	for i := targetLevel; i >= 0; i-- {
+		verifYield(VerifPtSdLoad)
 		next, deleted := delNode.getNext(i)
 		for !deleted {
+			verifYield(VerifPtSdCas)
 			if delNode.dcasNext(i, next, next, false, true) && i == 0 {
 				sts.AddInt64(&sts.softDeletes, 1)
 				marked = true
 			}
+			verifYield(VerifPtSdLoad)
 			next, deleted = delNode.getNext(i)
 		}
 	}
